@@ -11,6 +11,7 @@ package main
 
 import (
 	"net/textproto"
+	"path"
 	"fmt"
 	"net"
 	"sort"
@@ -251,6 +252,19 @@ func (e *absEnv) strCall(name string, args []aval) (aval, bool) {
 	}
 	strT := types.Typ[types.String]
 	switch name {
+	case "path.Clean", "path/filepath.ToSlash", "strings.ToUpper", "strings.Title":
+		// concrete strings only: the real function
+		if a, ok := lit(0); ok && len(args) == 1 {
+			switch name {
+			case "path.Clean":
+				return astr(path.Clean(a)), true
+			case "path/filepath.ToSlash":
+				return astr(a), true // evaluated for a slash-separated platform
+			case "strings.ToUpper":
+				return astr(strings.ToUpper(a)), true
+			}
+		}
+		return nil, false
 	case "strings.Count":
 		if len(args) == 2 {
 			if a, ok := lit(0); ok {
